@@ -55,8 +55,22 @@ class Twin:
         return 'Twin(%s)' % self.ident
 
 
+ODD_TYPES = (StreamClosed, StopAsyncIteration, StopIteration, GeneratorExit, KeyError,
+             TimeoutError)
+
+
+def odd(ident):
+    """payloads that are exception *instances* - among them the very types that streams use
+    internally to signal their end: as a payload they are values like any other"""
+    payload = ODD_TYPES[sum(map(ord, ident)) % len(ODD_TYPES)](ident)
+    payload.ident = ident
+    return payload
+
+
 def unwrap(payload):
-    return payload.ident if isinstance(payload, Twin) else payload
+    if isinstance(payload, (Twin, BaseException)):
+        return payload.ident
+    return payload
 
 
 def n_cases(tier):
@@ -91,6 +105,7 @@ def make_case(seed, index, tier):
     return {'seed': seed, 'index': index, 'tier': tier, 'burst': burst,
             'twins': rng.random() < 0.4, 'reused': rng.random() < 0.4,
             'nones': rng.random() < 0.25, 'early': rng.random() < 0.3,
+            'odd': rng.random() < 0.25,
             'scenario': {'producers': producers, 'consumers': consumers}}
 
 
@@ -257,7 +272,7 @@ def build_for(case):
 
     def build(arena):
         channel = Channel()
-        wrap = Twin if case.get('twins') else str
+        wrap = Twin if case.get('twins') else odd if case.get('odd') else str
         if case.get('nones'):
             # every other message is None (a valid payload: it must not end an iteration)
             def wrap(message, plain=wrap):
